@@ -51,7 +51,10 @@ def load_calibrator_state(checkpoint_path: PathLike, _code_state_version: int) -
     with (checkpoint_path / "calibration_params.json").open() as f:
         cp = json.load(f)
 
-    cr = pd.read_csv(checkpoint_path / "calibration_results.csv")
+    cr = pd.read_csv(
+        checkpoint_path / "calibration_results.csv",
+        float_precision="round_trip",
+    )
 
     params_samp_list = [
         cr[f"params_samp_{i}"] for i in range(len(cp["parameters_precision"]))
